@@ -58,16 +58,20 @@ fn show(f: &Frame) -> String {
 }
 
 pub fn decode(bytes: &[u8]) -> String {
-    let r = catch_unwind(AssertUnwindSafe(|| {
-        let mut src = BytesMut::from(bytes);
-        FrameCodec {}.decode(&mut src)
-    }));
-    match r {
-        Ok(Ok(Some(f))) => show(&f),
-        Ok(Ok(None)) => "none".into(),
-        Ok(Err(_)) => "err".into(),
-        Err(_) => "PANIC".into(),
-    }
+    let owned = bytes.to_vec();
+    let r = crate::out::guarded(10, move || {
+        let r = catch_unwind(AssertUnwindSafe(|| {
+            let mut src = BytesMut::from(&owned[..]);
+            FrameCodec {}.decode(&mut src)
+        }));
+        match r {
+            Ok(Ok(Some(f))) => show(&f),
+            Ok(Ok(None)) => "none".into(),
+            Ok(Err(_)) => "err".into(),
+            Err(_) => "PANIC".into(),
+        }
+    });
+    r.unwrap_or_else(|| "SPIN".to_string())
 }
 
 fn encode(f: Frame) -> Result<Vec<u8>, String> {
@@ -119,6 +123,10 @@ fn run_dec(line: &str, what: &str, out: &mut Outputs) {
     if res == "PANIC" {
         out.violation("c15-sasl-frame-decoder-panic", &format!("the SASL frame decoder panics ({})", what), line);
         out.violation("c19-sasl-frame-decoder-panic", &format!("the SASL frame decoder panics ({})", what), line);
+    }
+    if res == "SPIN" && !out.violations.iter().any(|v| v.0 == "c15-sasl-frame-decoder-spin") {
+        out.violation("c15-sasl-frame-decoder-spin", &format!("the SASL frame decoder had not returned after 10 s on a frame of {} bytes ({})", bytes.len(), what), line);
+        out.violation("c19-hang-or-panic", &format!("the SASL frame decoder had not returned after 10 s on a frame of {} bytes ({})", bytes.len(), what), line);
     }
     out.count(&format!("dec: {}", what));
     if res.starts_with("ok") {
